@@ -2,3 +2,13 @@ import Pyab.Properties.C06
 #print axioms Pyab.Properties.C06_lexer_errors_raise
 #print axioms Pyab.Properties.C06_parser_errors_raise
 #print axioms Pyab.Properties.C06_unterminated_comment_rejected
+#print axioms Pyab.Properties.C06_lex_all_raise_bool
+#print axioms Pyab.Properties.C06_lex_all_raise
+#print axioms Pyab.Properties.C06_lex_no_skip
+#print axioms Pyab.Properties.C06_lex_tokens_from_pieces
+#print axioms Pyab.Properties.C06_tables_are_documented_grammar
+#print axioms Pyab.Properties.C06_documented_grammar_in_tables
+#print axioms Pyab.Properties.C06_startSym
+#print axioms Pyab.Properties.derives_drop_aug
+#print axioms Pyab.Properties.derivesSeq_drop_aug
+#print axioms Pyab.Properties.C06_parse_sound
